@@ -303,7 +303,7 @@ func runPrivCase(t *testing.T, pc privCase) (res *privResult) {
 		case "no_node_did":
 		}
 		plain := []*party{H, P}
-		if st.str("peer") == "auth_unlisted" {
+		if st.str("peer") == "auth_unlisted" || st.str("peer") == "auth_alias_listed" {
 			plain = []*party{H, X}
 			if st.str("key") == "not_recipient" {
 				recipients = []*party{X}
@@ -328,6 +328,21 @@ func runPrivCase(t *testing.T, pc privCase) (res *privResult) {
 			res.Error = err.Error()
 			return res
 		}
+		// auth_alias_listed: a SECOND private transaction on the holder's DAG declares the same payload hash (the hash is public in
+		// the header of tx) and lists the holder and the peer; the holder received it without payload, as private transactions arrive
+		queryRef := tx.Ref()
+		if st.str("peer") == "auth_alias_listed" && st.str("tx") == "private" {
+			rcp2 := []*party{H, P}
+			if st.str("key") == "not_recipient" {
+				rcp2 = []*party{X, P}
+			}
+			tx2 := mkTx([]dag.Transaction{tx}, 2, encryptPAL(rcp2, []*party{H, P}), canary)
+			if err := h.state.Add(context.Background(), tx2, nil); err != nil {
+				res.Error = err.Error()
+				return res
+			}
+			queryRef = tx2.Ref()
+		}
 		peer := transport.Peer{ID: "P", Address: "p:5555"}
 		switch st.str("peer") {
 		case "unauth":
@@ -348,7 +363,7 @@ func runPrivCase(t *testing.T, pc privCase) (res *privResult) {
 		var env *v2.Envelope
 		switch st.str("req") {
 		case "PayloadQuery":
-			env = &v2.Envelope{Message: &v2.Envelope_TransactionPayloadQuery{TransactionPayloadQuery: &v2.TransactionPayloadQuery{TransactionRef: tx.Ref().Slice()}}}
+			env = &v2.Envelope{Message: &v2.Envelope_TransactionPayloadQuery{TransactionPayloadQuery: &v2.TransactionPayloadQuery{TransactionRef: queryRef.Slice()}}}
 		case "ListQuery":
 			env = &v2.Envelope{Message: &v2.Envelope_TransactionListQuery{TransactionListQuery: &v2.TransactionListQuery{ConversationID: []byte("c1"), Refs: [][]byte{tx.Ref().Slice()}}}}
 		case "RangeQuery":
@@ -382,6 +397,8 @@ func runPrivCase(t *testing.T, pc privCase) (res *privResult) {
 			}
 			if !peer.Authenticated {
 				viol("private-payload-to-unauthenticated", "payload sent over an unauthenticated connection (peer class "+st.str("peer")+")")
+			} else if st.str("peer") == "auth_alias_listed" {
+				viol("private-payload-to-unlisted-via-alias", "payload of a private transaction sent to an authenticated peer that is not on ITS participant list, in answer to a query for another transaction that declares the same payload hash and lists the peer")
 			} else if st.str("peer") != "auth_listed" {
 				viol("private-payload-to-unlisted", "payload sent to an authenticated peer that is not on the participant list")
 			}
